@@ -677,6 +677,19 @@ Proof.
     apply some_inj in H. eapply (TE (setc s n (c_set_user 1%nat))); [unfold tsame; cbn; auto 10|exact H|apply teff_refl|reflexivity].
   - destruct (find_user _ _) as [c|]; [|discriminate]. destruct (nth_error _ _); [|discriminate].
     apply some_inj in H. eapply (TE (setc s c (c_set_user 0%nat))); [unfold tsame; cbn; auto 10|exact H|apply teff_refl|reflexivity].
+  - (* LoopEnd: nothing is queued, no timer is left *)
+    destruct (_ || _ || _); [discriminate|]. apply some_inj in H. unfold loop_end in H. cbn [k_chan set_timers set_pending] in H.
+    destruct (k_chan s); [discriminate|]. injection H as <- _.
+    match goal with |- Tinv ?S _ => set (S1 := S); set (q1 := qnext q s S1 LoopEnd) end.
+    assert (Q : q1 = q \/ (pending s = [] /\ q1 <= now s)).
+    { destruct (qnext_ok q s S1 LoopEnd eq_refl) as [E|[E1 E2]]; [subst S1; cbn; lia|left; exact E|right; split; [exact E1|exact E2]]. }
+    clearbody q1. subst S1. destruct T as [Td Ts Tr Te Ta Tb]. split; cbn.
+    + exact Td.
+    + destruct Q as [->|[_ Q]]; lia.
+    + intros Z. exfalso. apply Z. reflexivity.
+    + intros _ _ Z. discriminate Z.
+    + intros _ _ [[]|Z]. exfalso. apply Z. reflexivity.
+    + intros _ _ Z. exfalso. apply Z. reflexivity.
 Qed.
 
 (* ------------------------------------------------------------------ along a history *)
